@@ -17,7 +17,24 @@ pub fn drain(r: &mut Receiver<String>) -> Vec<String> {
 
 pub struct Sess { pub client: Client, pub rx: Receiver<String> }
 
+pub struct LinkOut { pub to: String, pub rx: Receiver<String>, pub keep: std::sync::mpsc::Sender<()>, pub is_primary: bool }
+
+/// connections the nodes asked for through the link hook: (from, to, outgoing queue, connects as primary, keep-alive)
+pub static LINKREG: std::sync::Mutex<Vec<(String, String, Receiver<String>, bool, std::sync::mpsc::Sender<()>)>> = std::sync::Mutex::new(Vec::new());
+
+pub fn install_link_hook() {
+    nundb::verif::set_link_hook(Some(Arc::new(|to: String, rx: Receiver<String>, from: String, is_primary: bool| {
+        let (tx, hold) = std::sync::mpsc::channel::<()>();
+        LINKREG.lock().unwrap().push((from, to, rx, is_primary, tx));
+        let _ = hold.recv();   // returns when the harness drops the link: the connection is closed
+    })));
+}
+
 pub struct Node {
+    pub name: String,
+    pub sup_fut: Option<std::pin::Pin<Box<dyn std::future::Future<Output = ()>>>>,
+    pub sup_in: Option<Sender<String>>,
+    pub links: Vec<LinkOut>,
     pub repl_fut: Option<std::pin::Pin<Box<dyn std::future::Future<Output = ()>>>>,
     pub repl_in: Option<Sender<String>>,
     pub dbs: Arc<Databases>,
@@ -37,6 +54,14 @@ fn role_of(s: &str) -> ClusterRole {
 }
 
 pub fn make_dbs(dir: &str, role: ClusterRole, fresh: bool) -> (Arc<Databases>, Receiver<String>, Receiver<String>) {
+    make_dbs_named(dir, role, fresh, "n1", 1)
+}
+
+pub fn opt_of<'a>(opts: &'a str, key: &str) -> Option<&'a str> {
+    opts.split(',').find_map(|o| o.strip_prefix(key).and_then(|r| r.strip_prefix('=')))
+}
+
+pub fn make_dbs_named(dir: &str, role: ClusterRole, fresh: bool, name: &str, pid: u128) -> (Arc<Databases>, Receiver<String>, Receiver<String>) {
     nundb::verif::set_data_dir(Some(dir.to_string()));
     std::fs::create_dir_all(dir).unwrap();
     let (s1, r1): (Sender<String>, Receiver<String>) = channel(100000);
@@ -51,7 +76,7 @@ pub fn make_dbs(dir: &str, role: ClusterRole, fresh: bool) -> (Arc<Databases>, R
         };
         (km, v)
     };
-    let dbs = Arc::new(Databases::new("adm".into(), "pw".into(), "n1".into(), "n1".into(), s1, s2, keys_map, 1u128, valid));
+    let dbs = Arc::new(Databases::new("adm".into(), "pw".into(), name.into(), name.into(), s1, s2, keys_map, pid, valid));
     dbs.node_state.store(role as usize, Ordering::SeqCst);
     (dbs, r2, r1)
 }
@@ -133,6 +158,67 @@ impl Node {
             let mut cx = std::task::Context::from_waker(&waker);
             let _ = std::panic::catch_unwind(std::panic::AssertUnwindSafe(|| { let _ = f.as_mut().poll(&mut cx); }));
         }
+    }
+
+    pub fn start_sup(&mut self) {
+        install_link_hook();
+        let (tx, rx): (Sender<String>, Receiver<String>) = channel(100000);
+        self.sup_in = Some(tx);
+        self.sup_fut = Some(Box::pin(nundb::replication_ops::start_replication_supervisor(rx, self.dbs.clone(), Arc::new(self.name.clone()))));
+    }
+
+    /// the supervisor over everything queued for it; new peer connections and what is queued on the existing ones
+    pub fn pump_sup(&mut self) -> Vec<String> {
+        let mut out = vec![];
+        if self.sup_fut.is_none() { return out; }
+        nundb::verif::set_data_dir(Some(self.dir.clone()));
+        let msgs = drain(&mut self.sup_rx);
+        let mut expect_links = 0;
+        for m in msgs {
+            out.push(format!("V {}", esc(&m)));
+            let kind = m.split(' ').next().unwrap_or("").to_string();
+            let name = m.splitn(2, ' ').nth(1).unwrap_or("").to_string();
+            if ["secoundary", "primary", "new-secoundary"].contains(&kind.as_str()) && !self.dbs.has_cluster_memeber(&name) { expect_links += 1; }
+            if let Some(tx) = self.sup_in.as_mut() { let _ = tx.try_send(m); }
+        }
+        if let Some(f) = self.sup_fut.as_mut() {
+            let waker = futures::task::noop_waker();
+            let mut cx = std::task::Context::from_waker(&waker);
+            let r = std::panic::catch_unwind(std::panic::AssertUnwindSafe(|| { let _ = f.as_mut().poll(&mut cx); }));
+            if r.is_err() {
+                out.push(format!("K PANIC supervisor {}", LAST_PANIC.with(|p| p.borrow_mut().take()).unwrap_or_default()));
+                self.sup_fut = None; self.sup_in = None;
+            }
+        }
+        // connections opened by the supervisor (its threads register through the link hook)
+        let t0 = std::time::Instant::now();
+        let mut got = 0;
+        while got < expect_links && t0.elapsed().as_millis() < 3000 {
+            let mut reg = LINKREG.lock().unwrap();
+            let mut i = 0;
+            while i < reg.len() {
+                if reg[i].0 == self.name {
+                    let (_, to, rx, is_primary, keep) = reg.remove(i);
+                    nundb::verif::set_data_dir(Some(self.dir.clone()));
+                    let last = if is_primary { 0 } else { nundb::disk_ops::Oplog::last_op_time() };
+                    out.push(format!("K link {} primary={} lastop={}", escw(&to), if is_primary { 1 } else { 0 }, last));
+                    self.links.push(LinkOut { to, rx, keep, is_primary }); got += 1;
+                } else { i += 1; }
+            }
+            drop(reg);
+            if got < expect_links { std::thread::sleep(std::time::Duration::from_millis(1)); }
+        }
+        if got < expect_links { out.push("K link-missing".to_string()); }
+        out
+    }
+
+    /// lines queued for the peers
+    pub fn drain_links(&mut self) -> Vec<String> {
+        let mut out = vec![];
+        for l in self.links.iter_mut() {
+            for m in drain(&mut l.rx) { out.push(format!("L {} {}", escw(&l.to), esc(&m))); }
+        }
+        out
     }
 
     /// move what the node queued on its replication channel into the loop and run it until it is idle
@@ -246,7 +332,7 @@ impl Node {
             }
         }
         if self.repl_in.is_none() && self.repl_fut.is_none() { for m in drain(&mut self.repl_rx) { out.push(format!("P {}", esc(&m))); } }
-        for m in drain(&mut self.sup_rx) { out.push(format!("V {}", esc(&m))); }
+        if self.sup_fut.is_none() { for m in drain(&mut self.sup_rx) { out.push(format!("V {}", esc(&m))); } }
         out
     }
 
@@ -280,14 +366,23 @@ impl World {
         World { node: None, counter: 0, base }
     }
 
+    pub fn new_at(ix: usize) -> World {
+        let mut w = World::new();
+        if ix != 1 { w.base = format!("{}/w{}", w.base, ix); }
+        w
+    }
+
     fn reset(&mut self, role: &str) {
         if let Some(n) = self.node.take() { let _ = std::fs::remove_dir_all(&n.dir); }
         self.counter += 1;
         let dir = format!("{}/c{}-{}", self.base, std::process::id(), self.counter);
         let _ = std::fs::remove_dir_all(&dir);
-        let (dbs, repl_rx, sup_rx) = make_dbs(&dir, role_of(role), true);
-        let mut node = Node { repl_fut: None, repl_in: None, dbs, repl_rx, sup_rx, sessions: BTreeMap::new(), dir, notices: HashMap::new(), last_dump: vec![] };
-        if role.contains("pump") { node.start_loop(); }
+        let name = opt_of(role, "name").unwrap_or("n1").to_string();
+        let pid: u128 = opt_of(role, "pid").and_then(|p| p.parse().ok()).unwrap_or(1);
+        let (dbs, repl_rx, sup_rx) = make_dbs_named(&dir, role_of(role), true, &name, pid);
+        let mut node = Node { name, sup_fut: None, sup_in: None, links: vec![], repl_fut: None, repl_in: None, dbs, repl_rx, sup_rx, sessions: BTreeMap::new(), dir, notices: HashMap::new(), last_dump: vec![] };
+        if role.split(',').any(|o| o == "pump") { node.start_loop(); }
+        if role.split(',').any(|o| o == "sup") { node.start_sup(); }
         self.node = Some(node);
     }
 
@@ -309,7 +404,7 @@ impl World {
             let r = std::panic::catch_unwind(std::panic::AssertUnwindSafe(|| {
                 let (dbs, repl_rx, sup_rx) = make_dbs(&dir, ClusterRole::Primary, false);
                 Databases::load_all_dbs(&dbs);
-                let t = Node { repl_fut: None, repl_in: None, dbs, repl_rx, sup_rx, sessions: BTreeMap::new(), dir: dir.clone(), notices: HashMap::new(), last_dump: vec![] };
+                let t = Node { name: "n1".to_string(), sup_fut: None, sup_in: None, links: vec![], repl_fut: None, repl_in: None, dbs, repl_rx, sup_rx, sessions: BTreeMap::new(), dir: dir.clone(), notices: HashMap::new(), last_dump: vec![] };
                 t.dump_meta()
             }));
             if let Some(n) = self.node.as_ref() { nundb::verif::set_data_dir(Some(n.dir.clone())); }
@@ -362,6 +457,14 @@ impl World {
                     let dbs = n.dbs.clone();
                     let r = std::panic::catch_unwind(std::panic::AssertUnwindSafe(|| {
                         process_request("unwatch-all", &dbs, &mut sess.client);
+                        // tcp_ops::handle_client: a connection that announced itself as a cluster member leaves the cluster
+                        let member = { sess.client.cluster_member.lock().unwrap().as_ref().map(|m| (m.name.clone(), m.role)) };
+                        if let Some((name, role)) = member {
+                            let (mut fake, _rx) = Client::new_empty_and_receiver();
+                            fake.auth.store(true, Ordering::Relaxed);
+                            let msg = if role == ClusterRole::Primary { format!("leave {}", name) } else { format!("replicate-leave {}", name) };
+                            process_request(&msg, &dbs, &mut fake);
+                        }
                         sess.client.left(&dbs);
                     }));
                     let mut out = vec![];
@@ -447,7 +550,50 @@ impl World {
             }
             "PUMP" => {
                 let mut out = n.pump();
-                out.extend(n.dump_meta());
+                if n.sup_fut.is_some() {
+                    // loop and supervisor feed each other (election-win -> set-primary broadcast): run both until nothing moves
+                    for _ in 0..8 {
+                        let a = n.pump_sup();
+                        let b = n.pump();
+                        let idle = a.is_empty() && b.is_empty();
+                        out.extend(a); out.extend(b);
+                        if idle { break; }
+                    }
+                    out.extend(n.drain_links());
+                } else { out.extend(n.dump_meta()); }
+                out.extend(n.dump_delta());
+                out
+            }
+            "DUMP" => { n.last_dump.clear(); n.dump_delta() }
+            "LINKSESS" => {
+                // the reader side of a peer connection opened by this node (start_replication): authenticated, marked as a cluster member
+                let sid: usize = match a1.parse() { Ok(s) => s, Err(_) => return vec!["E bad-op".into()] };
+                let (client, rx) = Client::new_empty_and_receiver();
+                client.auth.store(true, Ordering::Relaxed);
+                { let mut m = client.cluster_member.lock().unwrap(); *m = Some(ClusterMember { name: a2.to_string(), role: ClusterRole::Secoundary, sender: None }); }
+                n.sessions.insert(sid, Sess { client, rx });
+                n.dump_delta()
+            }
+            "ELECT" => {
+                // start_inital_election without its one-second sleep
+                nundb::verif::set_data_dir(Some(n.dir.clone()));
+                let dbs = n.dbs.clone();
+                let r = std::panic::catch_unwind(std::panic::AssertUnwindSafe(|| { if dbs.is_eligible() { nundb::election_ops::start_election(&dbs); } }));
+                let mut out = vec![if r.is_ok() { "R ok".to_string() } else { format!("R PANIC {}", LAST_PANIC.with(|p| p.borrow_mut().take()).unwrap_or_default()) }];
+                out.extend(n.drain_all(None));
+                out.extend(n.dump_delta());
+                out
+            }
+            "UNLINK" => {
+                // the connection this node opened to <a1> is closed: its thread ends (a primary then forgets the member)
+                let before = n.links.len();
+                let mut was_primary = false;
+                n.links.retain(|l| { if l.to == a1 { was_primary = l.is_primary; false } else { true } });
+                if n.links.len() < before && was_primary {
+                    let t0 = std::time::Instant::now();
+                    while n.dbs.has_cluster_memeber(&a1.to_string()) && t0.elapsed().as_millis() < 3000 { std::thread::sleep(std::time::Duration::from_millis(1)); }
+                }
+                let mut out = vec![format!("# unlinked {}", n.links.len() < before)];
                 out.extend(n.dump_delta());
                 out
             }
